@@ -12,6 +12,7 @@ import random
 import vlib
 from props import client_gen as G
 from props import client_lib as CL
+from props import client_overlap as O
 
 MODEL = "clientrun"
 MODULE = "Model.ClientRun"
@@ -115,6 +116,7 @@ def run(ck):
               [G.gen_history(rnd, "chaos") for _ in range(400 * scale)])
     run_batch(ck, "failover scenarios (faults, then retries) vs Model.ClientRun.run_ops",
               [G.gen_failover(rnd) for _ in range(500 * scale)])
+    O.batch(ck, rnd, 200 * scale, PID)       # overlapping calls, arbitrary interleavings: monitors only (see client_overlap.py)
     ck.resolve_soft()
     if ck.tier == "thorough":
         run_batch(ck, "exhaustive pairs of metadata responses over a small alphabet vs Model.ClientRun.run_ops", list(enum_small()))
@@ -137,6 +139,7 @@ def run(ck):
         "C08_recovery_within_budget premises (per attempt, after the last fault): fixed topology, truthful lookups that get as far as sending, every request answered by its node with 0 / NotLeader truthfully (no failed sends: a re-addressed broker's old connection is gone), distinct payload keys; the composition with the Producer/Consumer retry loops and budgets (C09_attempt_bound, C14_attempt_limit) is not mechanised; the failover monitor retries the client call itself and counts failed sends separately (at most one, it empties the cache)",
         "the network side (request parser / response encoder in harness/props/client_lib.py) was written from the Kafka protocol guide, not from afkak's codec",
         "close() called while a lookup of the running operation is pending: client.py:383-389 fail the pending request synchronously, the operation's continuation runs inside close() and reads the cache BEFORE reset_all_metadata() (391); the model does the same (ClientMeta.close_early during the operation, close_finish after it)",
+        "overlapping operations and arbitrary interleavings (client_overlap.py: 2-4 calls issued before anything is answered, one pending event delivered at a time - accept/refuse a connect, answer one request from the cluster state at that moment, kill a connection with requests in flight (re-send), fire a timer - while leaders move and brokers die/restart) are OUTSIDE the Gallina model: monitors only (completion, no KeyError/unknown exception, no cross-talk, per-call order and accounting, routing against the metadata answers merged since the call was issued, cache = last merged answer at the end, closing)",
         "extraction: ExtrOcamlBasic only; Z stays a Coq datatype; sample of the case lines re-evaluated in Coq by vm_compute",
     ]
     ck.cov["trusted_base"] += ["correspondence harness harness/props/C08.py + client_gen.py + client_lib.py + harness/simnet.py + harness/vlib.py",
@@ -145,4 +148,6 @@ def run(ck):
 
 
 def replay(rp):
+    if rp.get("replay_op") == "overlap":
+        return O.replay(rp)
     return G.replay_history(rp, PID)
